@@ -116,7 +116,12 @@ def main(argv=None):
         return 2
     from .sem import t4 as t4sem
     from . import refeval
-    t4 = t4sem.parse(text)
+    try:
+        t4 = t4sem.parse(text)
+    except t4sem.T4ParseError as e:
+        # the written text is not a TRIPOLI-4 geometry at all: that is a structural violation whatever was looked for
+        print('REPRODUCED: written file is not valid:\n  %s' % e)
+        return 1
     if kind == 'validate':
         pb = t4sem.validate(t4)
         extra = refeval.text_checks(case, t4)
